@@ -263,10 +263,9 @@ impl Area for BuilderArea {
 
     fn step(&mut self, ws: &[&str], cx: &mut Ctx<'_>) -> Option<String> {
         let ans = match ws {
-            ["__threshold", n] => {
-                self.threshold = n.parse().unwrap_or(3);
-                "ok".to_string()
-            }
+            // the oracle's notion of a "small node" is the documented one (at most three children), whatever
+            // constant / comparison the code under test uses
+            ["__threshold", _n] => "ok".to_string(),
             ["cache", backend] => match make_interner(backend) {
                 Some(i) => {
                     self.caches.push(Some(NodeCache::from_interner(i)));
